@@ -40,6 +40,7 @@ func init() {
 			"\terrRead := p.DelRead(slot)\n\tif errRead != nil {\n\t\treturn errRead\n\t}\n\treturn p.DelWrite(slot)", "C03-R3"},
 		mutant{"RunPending exits only below zero", "io.go", "if ioc.poller.Pending() <= 0 {", "if ioc.poller.Pending() < 0 {", "C03-R4"},
 		mutant{"EINTR surfaced as error", "io.go", "\t\t\truntime.Gosched()\n\t\t\treturn 0, nil", "\t\t\truntime.Gosched()\n\t\t\treturn 0, err", "C03-R4"},
+		mutant{"wait error wrapped before the EINTR test", "internal/poll_linux.go", "\t\terr = errno // we need to convert", "\t\terr = os.NewSyscallError(\"epoll_wait\", errno)", "C03-R4"},
 		mutant{"timeout reported for blocking poll", "internal/poll_linux.go", "if n == 0 && timeoutMs >= 0 {", "if n == 0 {", "C03-R4"},
 		mutant{"RunPending reports timeout", "io.go",
 			"\t\tif ioc.poller.Pending() <= 0 {\n\t\t\tbreak\n\t\t}\n\n\t\tif err := ioc.RunOne(); err != nil && err != sonicerrors.ErrTimeout {",
@@ -436,6 +437,67 @@ func runC03(c *Ctx) {
 			ex, ok := strip(r.Results[0]).(*ssa.Extract)
 			good := ok && ex.Index == 0 && isCallTo(ex.Tuple.(ssa.Instruction), p.IfaceMethod("internal", "Poller", "Poll"))
 			c.check(good, fn, "success return", r.Pos(), "returns the count reported by the poller", "the count returned on success is not the poller's count")
+		}
+	}
+	{
+		// the two cooperating sites of the EINTR mapping: (*IO).poll compares the poller's error with syscall.EINTR by
+		// identity, so (*poller).Poll must return the bare errno of epoll_wait (not a wrapped error) - or poll must use errors.Is
+		usesIs := false
+		eachInstr(pollM, func(in ssa.Instruction) {
+			if call, ok := in.(*ssa.Call); ok && call.Call.StaticCallee() != nil && (call.Call.StaticCallee().String() == "errors.Is" || call.Call.StaticCallee().String() == "errors.As") {
+				for _, a := range call.Call.Args {
+					if isErrnoConst(a, "EINTR") {
+						usesIs = true
+					}
+				}
+			}
+		})
+		pfn := p.Method("internal", "poller", "Poll")
+		n := 0
+		for _, r := range returnsOf(pfn) {
+			e := resolveCell(r.Results[1])
+			if isNil(e) {
+				continue
+			}
+			// is this the errno path? the returned error derives from the errno result of the raw syscall
+			var errnoVal ssa.Value
+			eachInstr(pfn, func(in ssa.Instruction) {
+				ex, ok := in.(*ssa.Extract)
+				if !ok || ex.Index != 2 {
+					return
+				}
+				if call, ok := ex.Tuple.(*ssa.Call); ok && call.Call.StaticCallee() != nil && call.Call.StaticCallee().Pkg != nil && call.Call.StaticCallee().Pkg.Pkg.Path() == "syscall" {
+					errnoVal = ex
+				}
+			})
+			if errnoVal == nil {
+				continue
+			}
+			derives := false
+			for _, leaf := range phiLeaves(e) {
+				if dependsOn(resolveCell(leaf), errnoVal) {
+					derives = true
+				}
+			}
+			if !derives {
+				continue
+			}
+			n++
+			bare := true
+			for _, leaf := range phiLeaves(e) {
+				leaf = resolveCell(leaf)
+				if isNil(leaf) {
+					continue
+				}
+				// (strip() has already removed the boxing of the errno into the error interface)
+				if stripConv(leaf) != errnoVal {
+					bare = false
+				}
+			}
+			c.check(bare || usesIs, pfn, "errno identity", exitPos(r), "the wait error reaches (*IO).poll in the form its EINTR test recognises", "Poll returns the epoll_wait errno wrapped in another error while (*IO).poll recognises an interrupted wait by `err == syscall.EINTR`: a signal during the wait surfaces as an error and RunPending returns with operations still in flight")
+		}
+		if n == 0 {
+			c.bad(pfn, "errno identity", pfn.Pos(), "Poll no longer returns the errno of a failed wait")
 		}
 	}
 	{
